@@ -456,6 +456,19 @@ def _design(spec, j, x, params):
     return np.array(cols).T, f0
 
 
+TOL = {"lm": (1e-4, 1e-10), "trf": (1e-2, 2e-5), "slsqp": (1e-2, 1e-2)}
+TOL_O4_LM = (1e-6, 1e-10)
+TOL_NONLINEAR = (1e-2, 1e-6)
+
+
+def _calib(kind, site, rel, rel_y, absd):
+    import os
+
+    if os.environ.get("VERIF_CALIB") and rel > 0:
+        with open(f"{os.environ['VERIF_CALIB']}.{os.getpid()}", "a") as f:
+            f.write(f"{kind} {site} {rel:.4e} {rel_y:.4e} {absd:.4e}\n")
+
+
 def check_function(run, spec, j, x, y, params, tag):
     """O1, O3, O4 for function j against its round data, given the final
     parameters of the whole DAG."""
@@ -483,16 +496,34 @@ def check_function(run, spec, j, x, y, params, tag):
     if constrained:
         for ci, it in enumerate(fs["constraints"]["items"]):
             c = float(np.dot(it["coef"], p) + it["rhs"])
-            if c < -1e-9 * (1 + abs(it["rhs"])):
+            # SLSQP keeps constraints to its internal accuracy (observed <= 3e-7); a
+            # declared constraint counts as violated beyond 1e-5 (relative to its scale)
+            if c < -1e-5 * (1 + abs(it["rhs"]) + float(np.dot(np.abs(it["coef"]), np.abs(p)))):
                 run.violate("O1-constraint", site, {"func": j, "constraint": ci, "c(p)": c, "params": p})
                 return
     Ws = objective_weights(fs["weights"], x, y)
-    # tolerance classes (documented in DESIGN.md section 3/C14)
-    rel = 1e-3 if constrained else 1e-4
-    absl = (1e-6 if constrained else 1e-10) * ynorm2
+    # tolerance classes (calibrated on the repaired tree over 1.6e4 runs, >= 10x the
+    # largest deviation seen, then frozen; see DESIGN.md section 3/C14):
+    #   curve_fit without bounds (LM): converges to ~1e-13 |y|^2
+    #   curve_fit with bounds (TRF) : interior-point, stops ~4e-3 S / 7e-7 |y|^2 short of an active bound
+    #   SLSQP (constraints)           : stops up to ~9e-4 |y|^2 short on ill-conditioned shapes (poly2), still reporting success
+    bounded = fs["bounds"] is not None
+    rel, absl = TOL["slsqp" if constrained else ("trf" if bounded else "lm")]
+    if not shape[3]:
+        # nonlinear shapes: Levenberg-Marquardt may stop in a flat valley (seen:
+        # logistics4 on 6 points, slope c = -48, 1.2e-4 S / 7e-9 |y|^2 left after a
+        # 1 % step); a fit against a stale conditioner or stale data is off by O(1)
+        rel, absl = max(rel, TOL_NONLINEAR[0]), max(absl, TOL_NONLINEAR[1])
+    absl *= ynorm2
+    if constrained:
+        # SLSQP with finite-difference gradients resolves the error only relative
+        # to its value at the start parameters (seen: S = 1.8e-3 = 1.8e-7 S(p0) left
+        # on 4 points of a parabola while reporting success); judged accordingly
+        S_start = _ssq(spec, j, x, y, params, np.ones(len(x)), list(fs["p0"]))
+        if math.isfinite(S_start):
+            absl = max(absl, 1e-4 * S_start)
     # ---- O3 local optimality -------------------------------------------------------
-    ok_any = False
-    worst = None
+    best = None  # candidate objective with the smallest worst-case excess
     for W in Ws:
         if not np.all(np.isfinite(W)):
             continue
@@ -500,7 +531,7 @@ def check_function(run, spec, j, x, y, params, tag):
         S0 = _ssq(spec, j, x, y, params, W)
         if not math.isfinite(S0):
             continue
-        bad = None
+        worst = {"excess": -1.0}
         for i in range(len(p)):
             scale = 1.0
             if fs["bounds"] is not None:
@@ -515,24 +546,29 @@ def check_function(run, spec, j, x, y, params, tag):
                     if q == list(p) or not _feasible(fs, q):
                         continue
                     S1 = _ssq(spec, j, x, y, params, W, q)
-                    if math.isfinite(S1) and S0 - S1 > rel * S0 + absl * wn:
-                        if bad is None or S0 - S1 > bad["drop"]:
-                            bad = {"param": i, "step": sgn * fac, "S": S0, "S_perturbed": S1, "drop": S0 - S1}
+                    if not math.isfinite(S1):
+                        continue
+                    drop = S0 - S1
+                    # excess > 1 <=> the drop exceeds the tolerance rel*S + abs
+                    excess = drop / (rel * S0 + absl * wn)
+                    if excess > worst["excess"]:
+                        worst = {"excess": excess, "param": i, "step": sgn * fac, "S": S0, "S_perturbed": S1, "drop": drop, "rel": drop / (S0 + 1e-300), "rel_y": drop / (ynorm2 * wn)}
         run.count("o3_evaluations")
-        if bad is None:
-            ok_any = True
+        if best is None or worst["excess"] < best["excess"]:
+            best = worst
+        if worst["excess"] <= 1.0:
             break
-        worst = bad
-    if not ok_any and worst is not None:
-        run.violate("O3-local-opt", site, {"func": j, "params": p, **worst})
+    if best is not None and best["excess"] > 0:
+        _calib("o3", site, best["rel"], best["rel_y"], best["drop"])
+    if best is not None and best["excess"] > 1.0:
+        run.violate("O3-local-opt", site, {"func": j, "params": p, **best})
         return
     # ---- O4 unique linear least squares -------------------------------------------
     if shape[3]:
         A, f0 = _design(spec, j, x, params)
         if not np.all(np.isfinite(A)):
             return
-        ok_any = False
-        worst = None
+        best = None
         for W in Ws:
             if not np.all(np.isfinite(W)):
                 continue
@@ -542,16 +578,12 @@ def check_function(run, spec, j, x, y, params, tag):
             cond = np.linalg.cond(Aw)
             if not math.isfinite(cond) or cond > 1e6:
                 run.count("o4_skipped_illconditioned")
-                ok_any = True
-                break
+                return
             if constrained:
-                # reference: SLSQP-independent active-set by enumeration is overkill;
-                # use lsq_linear on bounds only when no general constraint is active
                 ref = _constrained_ref(fs, Aw, bw)
                 if ref is None:
-                    ok_any = True
-                    break
-            elif fs["bounds"] is not None:
+                    return
+            elif bounded:
                 lo = [(-np.inf if b[0] is None else b[0]) for b in fs["bounds"]]
                 hi = [(np.inf if b[1] is None else b[1]) for b in fs["bounds"]]
                 ref = lsq_linear(Aw, bw, bounds=(lo, hi), method="bvls", tol=1e-14).x
@@ -560,15 +592,18 @@ def check_function(run, spec, j, x, y, params, tag):
             S_ref = float(np.sum((Aw @ ref - bw) ** 2))
             S_fin = float(np.sum((Aw @ np.array(p) - bw) ** 2))
             wn = float(np.max(W)) or 1.0
-            tol_rel = 1e-3 if constrained else (1e-4 if fs["bounds"] is not None else 1e-6)
-            tol_abs = (1e-6 if constrained else (1e-10 if fs["bounds"] is not None else 1e-12)) * ynorm2 * wn
+            tol_rel, tol_abs = (rel, absl) if (constrained or bounded) else (TOL_O4_LM[0], TOL_O4_LM[1] * ynorm2)
             run.count("o4_comparisons")
-            if S_fin <= S_ref * (1 + tol_rel) + tol_abs:
-                ok_any = True
+            excess = (S_fin - S_ref) / (tol_rel * S_ref + tol_abs * wn)
+            cand = {"excess": excess, "params": p, "lsq_solution": [float(v) for v in ref], "S": S_fin, "S_lsq": S_ref, "rel": (S_fin - S_ref) / (S_ref + 1e-300), "rel_y": (S_fin - S_ref) / (ynorm2 * wn)}
+            if best is None or excess < best["excess"]:
+                best = cand
+            if excess <= 1.0:
                 break
-            worst = {"params": p, "lsq_solution": [float(v) for v in ref], "S": S_fin, "S_lsq": S_ref}
-        if not ok_any and worst is not None:
-            run.violate("O4-linear-lsq", site, {"func": j, **worst})
+        if best is not None and best["excess"] > 0:
+            _calib("o4", site, best["rel"], best["rel_y"], best["S"] - best["S_lsq"])
+        if best is not None and best["excess"] > 1.0:
+            run.violate("O4-linear-lsq", site, {"func": j, **best})
 
 
 def _constrained_ref(fs, Aw, bw):
@@ -618,6 +653,37 @@ def _topo_reference_completes(scen, rnd):
         return True
     except Exception:
         return False
+
+
+def check_order_independence(run, scen, rnd, x, ys, params):
+    """O5: whatever the history, the state at the end of a round equals - within
+    optimiser tolerance, judged on the fitted function values - the state of a
+    fresh DAG fitted once in dependency order to this round's data."""
+    try:
+        ref_objs = build(scen)
+        for j in range(len(ref_objs)):
+            ref_objs[j].fit(x, ys[j])
+    except Exception:
+        run.count("o5_reference_failed")
+        return
+    ref_params = params_of(ref_objs)
+    for j in range(len(ref_objs)):
+        fs = scen["funcs"][j]
+        f_fin = ref_eval(scen, j, x, params)
+        f_ref = ref_eval(scen, j, x, ref_params)
+        if not (np.all(np.isfinite(f_fin)) and np.all(np.isfinite(f_ref))):
+            continue
+        scale = float(np.max(np.abs(ys[j]))) or 1.0
+        dev = float(np.max(np.abs(f_fin - f_ref))) / scale
+        run.count("o5_comparisons")
+        _calib("o5", ("slsqp" if fs["constraints"] else "curve_fit") + "/" + scen["dag"], dev, dev, dev)
+        if dev > TOL_O5:
+            path = "slsqp-constrained" if fs["constraints"] is not None else ("curve_fit-bounded" if fs["bounds"] is not None else "curve_fit-unbounded")
+            run.violate("O5-order-independence", f"{path}/{scen['dag']}", {"func": j, "max_rel_dev_of_fitted_values": dev, "params": params[j], "params_dependency_order": ref_params[j]})
+            return
+
+
+TOL_O5 = 1e-3
 
 
 def _is_linear_dag(scen):
@@ -704,7 +770,8 @@ def execute(prop, scen):
                 continue
             if exc is not None:
                 # fault-free exception
-                if lin and isinstance(exc, (RuntimeError, ValueError, AssertionError, TypeError)) and _topo_reference_completes(scen, rnd):
+                no_slsqp = all(f["constraints"] is None for f in scen["funcs"])
+                if lin and no_slsqp and isinstance(exc, (RuntimeError, ValueError, AssertionError, TypeError)) and _topo_reference_completes(scen, rnd):
                     run.violate(
                         "O7-order-dependent-failure",
                         f"{scen['dag']}/{scen['mode']}",
@@ -722,6 +789,8 @@ def execute(prop, scen):
             tag = f"{scen['mode']}" + ("/recovery" if dirty else "") + ("/refit" if ri > 0 and not dirty else "")
             for j in range(nf):
                 check_function(run, scen, j, x, ys[j], params, tag)
+            if not run.violations:
+                check_order_independence(run, scen, rnd, x, ys, params)
             dirty = False
             if run.violations:
                 return run
@@ -780,6 +849,25 @@ def shrink_candidates(prop, scen):
             c = copy.deepcopy(scen)
             c["rounds"][i]["xgrid"] = "centres"
             yield c
+    # drop a leaf function (one no other function depends on)
+    nf = len(scen["funcs"])
+    used = {ci for f in scen["funcs"] for ci in f["conds"]}
+    for j in range(nf - 1, -1, -1):
+        if j in used or nf == 1:
+            continue
+        c = copy.deepcopy(scen)
+        del c["funcs"][j]
+        for f in c["funcs"]:
+            f["conds"] = [ci - (1 if ci > j else 0) for ci in f["conds"]]
+        for r in c["rounds"]:
+            del r["truth"][j]
+            r["order"] = [k - (1 if k > j else 0) for k in r["order"] if k != j] or [0]
+            if r["fail_at"] is not None:
+                r["fail_at"] = min(r["fail_at"], len(c["funcs"]))
+        c["dag"] = scen["dag"]
+        if "roles" in c:
+            c.pop("roles"); c.pop("dict_order"); c["mode"] = "direct"
+        yield c
     if scen["mode"] == "cond":
         c = copy.deepcopy(scen)
         c["mode"] = "direct"
